@@ -75,9 +75,21 @@ PROPS = {
         ],
         "expect_probes": ["c06.login_replaced", "c13.system_calls"],
     },
+    "C12": {
+        "rule": "differential pairs: the same plan (hostile_srv / hostile_cli / faulty tunnel, all with truncation at arbitrary offsets, labels and pointers reaching the datagram end, RDLENGTH beyond the bytes present) "
+                "is executed twice, differing only in what every receive buffer holds beyond the datagram (zeros vs 0xFF / marker text / the previous datagram / pointer-like bytes); any difference in the run fingerprint "
+                "(all datagrams emitted, tun writes, wake-ups, exits) or in how the run ends is a violation. evaluations counts pairs; non-trivial = the underlying run was non-trivial; distinct = distinct fingerprints",
+        "jobs": [
+            {"scen": "hostile_srv", "sets": {"pair": True}, "quick": 700, "thorough": 60000},
+            {"scen": "hostile_cli", "sets": {"pair": True}, "quick": 2000, "thorough": 150000},
+            {"scen": "tunnel", "sets": {"mode": "faulty", "pair": True, "trunc": True}, "quick": 800, "thorough": 60000},
+        ],
+        "expect_probes": [],
+    },
 }
 
 LEVEL_TEXT = {
+    "C12": "Exploration by differential replay: exact determinism of the simulator turns the uncontrolled stale receive-buffer content into an explicit input; every pair must behave identically.",
     "C05": "Exploration: sanitizer-instrumented real server inside live sessions under generated hostile datagram sequences (millions of datagrams per thorough run); a clean batch is evidence of absence for the generated classes only.",
     "C06": "Exploration: sanitizer-instrumented real client with hostile answers substituted at every handshake step and in the tunnel; sampling over answer shapes and positions.",
     "C13": "Exploration: every system() argument produced by the real client under generated hostile login replies is validated token by token.",
@@ -101,7 +113,6 @@ NOT_CLAIMED = {
     "C08": "check under construction in this session; not claimed until it is sound",
     "C09": "check under construction in this session; not claimed until it is sound",
     "C11": "check under construction in this session (relay family); not claimed until it is sound",
-    "C12": "check under construction in this session (residue-differential pairs); not claimed until it is sound",
     "C15": "check under construction in this session; not claimed until it is sound",
     "C16": "check under construction in this session; not claimed until it is sound",
     "C20": "check under construction in this session (forwarding scenario); not claimed until it is sound",
